@@ -2,6 +2,7 @@
 #include "../../core/interpreter.h"
 #include <map>
 #include <string>
+#include <vector>
 
 struct ASTNode;
 class Interpreter;
@@ -60,4 +61,7 @@ class StaticVariableManager {
         std::string struct_type_name;
         bool is_active = false;
     } current_impl_context_;
+    // enter_impl_context saves the enclosing context here and
+    // exit_impl_context restores it (a method may call another impl method)
+    std::vector<ImplContext> saved_impl_contexts_;
 };
